@@ -25,6 +25,12 @@ Qed.
 Lemma dprim_eq_refl : forall d, dprim_eq d d.
 Proof. destruct d; simpl; reflexivity. Qed.
 
+Lemma dconst_eq_refl : forall d, dconst_eq d d.
+Proof.
+  destruct d as [d|l]; simpl; [apply dprim_eq_refl|].
+  exists l. split; [apply Permutation_refl|]. induction l; constructor; [apply dprim_eq_refl | assumption].
+Qed.
+
 Lemma Forall2_perm_r : forall {A B} (R : A -> B -> Prop) l1 l2,
     Forall2 R l1 l2 -> forall l2', Permutation l2 l2' -> exists l1', Permutation l1 l1' /\ Forall2 R l1' l2'.
 Proof.
@@ -70,8 +76,7 @@ Proof.
   intros a b Et Ep Eo Ek. unfold den_atom. rewrite <- Et, <- Ep, <- Eo.
   destruct (a_rhs a) as [[]|] eqn:Ka;
     try (pose proof (const_cmp_den _ _ Ek) as D; destruct (a_rhs b) as [[]|]; simpl in Ek; try discriminate; exact D).
-  apply const_cmp_str in Ek. rewrite Ek.
-  destruct (regkey_path (a_type a) (a_path a) && negb (is_matches (a_op a))); simpl; reflexivity.
+  apply const_cmp_str in Ek. rewrite Ek. apply dconst_eq_refl.
 Qed.
 
 (* the passes at a node *)
